@@ -101,19 +101,14 @@ theorem recover_cut (cfg : Cfg) (w m : Bytes) (n : Nat) (hn : n ≤ w.length)
             (fun p hp h => no_savepoint_at_zero w hsep (h ▸ hp)) hok
         simp [h0, hrep, hrc]
 
-/-- **Checksums (partial).**  Checksums on.  `w` is an intact log whose complete roll-forward succeeds; `w'` has the
-same length and is unchanged up to and including the header of the separator at `p` (stored checksum `c ≠ 0`,
-earlier segments end before `p`), and the bytes now covered by that checksum no longer hash to `c`; what comes
-after may be changed in any way.  Then recovery of `w'` either fails with `corrupted` or ends in a savepoint state
-of `w` (one before `p`).  Hypotheses that make this *partial*: `c ≠ 0` (the code skips the test for a zero field),
-the abstract `crc` tells the two byte strings apart, the separator header itself is intact (it is not covered by
-any checksum), and the pre-scan of the damaged log sees no reset mark (`mode = 2`, or its reset position is 0). -/
-theorem crc_detects_partial (cfg : Cfg) (hcrc : cfg.crcOn = true) (w w' m : Bytes) (p c len mode : Nat)
+/-- Common part of the two checksum theorems: the record `rp` at `p` of the intact log `w` keeps its header in `w'`
+(same length, nothing changed before the end of that header) but its handler now answers `corrupted`. -/
+theorem damage_detected_at (cfg : Cfg) (w w' m : Bytes) (p mode : Nat) (rp : Rec)
     (hlen : w.length = w'.length) (hsep : w.headD 0 = WOP_SEP)
-    (hp : (p, Rec.sep c len) ∈ walk w) (hc : c ≠ 0)
-    (hsame : w.take (p + 12) = w'.take (p + 12))
+    (hp : (p, rp) ∈ walk w)
+    (hsame : w.take (p + hdr rp) = w'.take (p + hdr rp))
     (hdisj : ∀ q c' l', (q, Rec.sep c' l') ∈ walk w → q < p → q + 12 + l' ≤ p)
-    (hdetect : cfg.crc ((w'.drop (p + 12)).take len) ≠ c)
+    (hbad : ∀ x, (applyB cfg rp (body rp (w'.drop p)) x).1 = .corrupted)
     (hok : (replay cfg 0 w m).rc = .ok)
     (hmode : mode = 2 ∨ (mode = 1 ∧ (prescan w').2 = 0)) :
     (rollforward cfg mode 0 w' m).rc = .corrupted ∨
@@ -137,8 +132,8 @@ theorem crc_detects_partial (cfg : Cfg) (hcrc : cfg.crcOn = true) (w w' m : Byte
       · omega
       · rw [hpf] at h2; simp only at h2; omega
     simp only [hf0, if_false, hbranch]
-    have key := replayAux_corrupt cfg hcrc f' 0 p c len hc w.length w w' 0 true m hlen (Nat.zero_le _)
-      (by simpa using hsame) hp hdisj (fun q hq h => no_savepoint_at_zero w hsep (h ▸ hq)) hok (by simpa using hdetect)
+    have key := replayAux_corrupt_at cfg f' 0 p rp w.length w w' 0 true m hlen (Nat.zero_le _)
+      (by simpa using hsame) hp hdisj (fun q hq h => no_savepoint_at_zero w hsep (h ▸ hq)) hok (by simpa using hbad)
     have hrw : replay cfg f' w' m = replayAux cfg f' w.length w' 0 true m := by unfold replay; rw [hlen]
     rw [hrw]
     rcases key with h | ⟨h1, h2, h3⟩
@@ -153,6 +148,48 @@ theorem crc_detects_partial (cfg : Cfg) (hcrc : cfg.crcOn = true) (w w' m : Byte
       simp only [hf0, if_false]
       cases hh : replayAux cfg f' w.length w 0 true m with
       | mk rc mn => rw [hh] at hrc; simp only at hrc; subst hrc; rfl
+
+/-- **Checksums (partial), segment bodies.**  Checksums on.  `w` is an intact log whose complete roll-forward succeeds;
+`w'` has the same length and is unchanged up to and including the header of the separator at `p` (stored checksum
+`c ≠ 0`, earlier segments end before `p`), and the bytes now covered by that checksum no longer hash to `c`; what
+comes after may be changed in any way.  Then recovery of `w'` either fails with `corrupted` or ends in a savepoint
+state of `w` (one before `p`).  Hypotheses that make this *partial*: `c ≠ 0` (the code skips the test for a zero
+field), the abstract `crc` tells the two byte strings apart, the separator header itself is intact (it is not covered
+by any checksum), and the pre-scan of the damaged log sees no reset mark (`mode = 2`, or its reset position is 0). -/
+theorem crc_detects_partial (cfg : Cfg) (hcrc : cfg.crcOn = true) (w w' m : Bytes) (p c len mode : Nat)
+    (hlen : w.length = w'.length) (hsep : w.headD 0 = WOP_SEP)
+    (hp : (p, Rec.sep c len) ∈ walk w) (hc : c ≠ 0)
+    (hsame : w.take (p + 12) = w'.take (p + 12))
+    (hdisj : ∀ q c' l', (q, Rec.sep c' l') ∈ walk w → q < p → q + 12 + l' ≤ p)
+    (hdetect : cfg.crc ((w'.drop (p + 12)).take len) ≠ c)
+    (hok : (replay cfg 0 w m).rc = .ok)
+    (hmode : mode = 2 ∨ (mode = 1 ∧ (prescan w').2 = 0)) :
+    (rollforward cfg mode 0 w' m).rc = .corrupted ∨
+      ∃ f, (f = 0 ∨ (f, Rec.savepoint) ∈ walk w) ∧ rollforward cfg mode 0 w' m = ⟨.ok, stateAt cfg w m f⟩ := by
+  apply damage_detected_at cfg w w' m p mode (Rec.sep c len) hlen hsep hp (by simpa [hdr] using hsame) hdisj _ hok hmode
+  intro x
+  have hb : cfg.crc (body (Rec.sep c len) (w'.drop p)) ≠ c := by
+    simpa [body, sz_WBSEP, List.drop_drop, Nat.add_comm] using hdetect
+  simp [applyB, hcrc, hc, hb]
+
+/-- **Checksums (partial), payloads.**  The same for the payload of a `WBWRITE` record at `p` with stored checksum
+`c ≠ 0` (this is what protects a payload that `_write_wl` put *outside* its segment): header intact, the `len` bytes
+now following it no longer hash to `c` ⇒ recovery fails with `corrupted` or ends in a savepoint state before `p`. -/
+theorem crc_detects_payload_partial (cfg : Cfg) (hcrc : cfg.crcOn = true) (w w' m : Bytes) (p c len off mode : Nat)
+    (hlen : w.length = w'.length) (hsep : w.headD 0 = WOP_SEP)
+    (hp : (p, Rec.write c len off) ∈ walk w) (hc : c ≠ 0)
+    (hsame : w.take (p + 20) = w'.take (p + 20))
+    (hdisj : ∀ q c' l', (q, Rec.sep c' l') ∈ walk w → q < p → q + 12 + l' ≤ p)
+    (hdetect : cfg.crc ((w'.drop (p + 20)).take len) ≠ c)
+    (hok : (replay cfg 0 w m).rc = .ok)
+    (hmode : mode = 2 ∨ (mode = 1 ∧ (prescan w').2 = 0)) :
+    (rollforward cfg mode 0 w' m).rc = .corrupted ∨
+      ∃ f, (f = 0 ∨ (f, Rec.savepoint) ∈ walk w) ∧ rollforward cfg mode 0 w' m = ⟨.ok, stateAt cfg w m f⟩ := by
+  apply damage_detected_at cfg w w' m p mode (Rec.write c len off) hlen hsep hp (by simpa [hdr] using hsame) hdisj _ hok hmode
+  intro x
+  have hb : cfg.crc (body (Rec.write c len off) (w'.drop p)) ≠ c := by
+    simpa [body, sz_WBWRITE, List.drop_drop, Nat.add_comm] using hdetect
+  simp [applyB, hcrc, hc, hb]
 
 /-- **Lost tail, log with reset marks (online backup in progress).**  Cut the log at any length `n`; let the pre-scan
 of the cut log report the savepoint `f` and the reset mark `r`, the mark being preceded by its separator in the
